@@ -332,9 +332,9 @@ PROPS = {
                            'Tie: filters stream enumerates exhaustively the small-scope universe (7 selectors x ~190 affinity shapes x 5 owner sets x 4 annotation sets = 141,820 pods, 9 label maps) through the real filter functions; at controller level, after every scan of the multi-group histories the harness asks each group\'s own lister objects what they return and the driver compares that with viewOf (names of pods and nodes): a disagreement names the mis-attributed pod or node.',
                 level_note=LEVEL_NOTE, exhaustive=True),
     'C15': dict(level='proof', module='EscProofs.P.C15',
-                streams=dict(quick=[('taintops', ['-n', 4000]), ('hist', ['-n', 300, '-scans', 10]), ('hist', ['-n', 200, '-scans', 10, '-focus', 'down'])],
-                             thorough=[('taintops', ['-n', 100000]), ('hist', ['-n', 15000, '-scans', 12]), ('hist', ['-n', 10000, '-scans', 12, '-focus', 'down'])],
-                             search=[('taintops', ['-n', 20000]), ('hist', ['-n', 1500, '-scans', 12]), ('hist', ['-n', 1500, '-scans', 12, '-focus', 'down'])]),
+                streams=dict(quick=[('taintops', ['-n', 4000]), ('hist', ['-n', 300, '-scans', 10]), ('hist', ['-n', 200, '-scans', 10, '-focus', 'down']), ('hist', ['-n', 16, '-scans', 8, '-focus', 'down', '-slow'])],
+                             thorough=[('taintops', ['-n', 100000]), ('hist', ['-n', 15000, '-scans', 12]), ('hist', ['-n', 10000, '-scans', 12, '-focus', 'down']), ('hist', ['-n', 160, '-scans', 8, '-focus', 'down', '-slow'])],
+                             search=[('taintops', ['-n', 20000]), ('hist', ['-n', 1500, '-scans', 12]), ('hist', ['-n', 1500, '-scans', 12, '-focus', 'down']), ('hist', ['-n', 32, '-scans', 8, '-focus', 'down', '-slow'])]),
                 aspects=['journal', 'ok', 'time', 'age', 'panic', 'hist:updates'], monitors=['C15'],
                 theorems=['Esc.P.C15_add', 'Esc.P.C15_add_idempotent', 'Esc.P.C15_delete', 'Esc.P.C15_no_restamp', 'Esc.P.C15_history',
                           'Esc.P.swapRemoveFirst_perm', 'Esc.P.C15_precise_add', 'Esc.P.C15_precise_delete', 'Esc.P.C15_history_stamp'],
